@@ -129,7 +129,7 @@ Definition collect_with (comp : hy -> cres) (with_kwargs dict_display : bool) :=
   | x :: r =>
       if is_unpack s_unpack_mapping x then
         match x with
-        | HExpr (_ :: v :: _) =>
+        | HExpr [_; v] =>
             match comp v with
             | COk e =>
                 if dict_display then
@@ -139,7 +139,7 @@ Definition collect_with (comp : hy -> cres) (with_kwargs dict_display : bool) :=
                 else CollErr CUser                               (* can't unpack a mapping here: raised at once *)
             | bad => CollErr bad
             end
-        | _ => CollErr CInternal                                  (* expr[1]: IndexError *)
+        | _ => CollErr CUser                 (* `unpack-mapping` takes exactly one argument (fix b5377ba) *)
         end
       else
         match x, with_kwargs with
@@ -200,8 +200,8 @@ Definition all_ok (comp : hy -> cres) :=
 Definition collect1 (comp : hy -> cres) (x : hy) : cres + option expr :=
   if is_unpack s_unpack_mapping x then
     match x with
-    | HExpr (_ :: v :: _) => match comp v with COk _ => inl CUser (* can't unpack a mapping here *) | bad => inl bad end
-    | _ => inl CInternal
+    | HExpr [_; v] => match comp v with COk _ => inl CUser (* can't unpack a mapping here *) | bad => inl bad end
+    | _ => inl CUser
     end
   else match comp x with COk e => inr (Some e) | bad => inl bad end.
 
